@@ -173,8 +173,56 @@ NP_ERR_STATES = {
 }
 
 
+_PRISTINE = None
+
+
+def _library_globals():
+    """Mutable class-level defaults of the library's own base classes: shared by every run in a worker process."""
+    from . import import_fsic
+
+    fsic = import_fsic()
+    from fsic.extensions import AliasMixin, TracerMixin
+
+    out = []
+    for cls, attrs in (
+        (AliasMixin, ('ALIASES', 'PREFERRED_NAMES')),
+        (TracerMixin, ('TRACE_VARIABLES',)),
+        (fsic.BaseModel, ('ENDOGENOUS', 'EXOGENOUS', 'PARAMETERS', 'ERRORS', 'NAMES', 'CHECK')),
+        (fsic.BaseLinker, ('ENDOGENOUS', 'EXOGENOUS', 'PARAMETERS', 'ERRORS', 'NAMES', 'CHECK')),
+        (fsic.core.interfaces.ModelInterface, ('NAMES',)),
+    ):
+        for a in attrs:
+            v = cls.__dict__.get(a)
+            if isinstance(v, (list, dict)):
+                out.append((cls, a, v))
+    out.append((fsic.functions, 'builtins', fsic.functions.builtins))
+    return out
+
+
+def restore_library_globals():
+    """A broken tree may let one run mutate the library's class-level defaults; the next run must not inherit that."""
+    global _PRISTINE
+    import copy as _copy
+
+    if _PRISTINE is None:
+        _PRISTINE = [(c, a, v, _copy.copy(v)) for c, a, v in _library_globals()]
+        return 0
+    n = 0
+    for c, a, v, pristine in _PRISTINE:
+        if v != pristine:
+            n += 1
+            if isinstance(v, list):
+                v[:] = pristine
+            else:
+                v.clear()
+                v.update(pristine)
+    return n
+
+
 def pin_globals(np_err='default'):
     import numpy as np
+
+    restore_library_globals()
 
     np.seterr(**NP_ERR_STATES[np_err])  # the caller's ambient floating-point error state is part of the configuration
     warnings.resetwarnings()
